@@ -5,13 +5,17 @@
    every reachable state ([WF]: buffer of 2*depth frames, idx <= depth), and the exact-arithmetic
    clauses over Coq's reals with the true sin, cos and PI.
    NOT proved (tested numerically by lib/props/c18.py and reported as tested): the 1e-12 bound with
-   glibc's sin/cos and the rounded PI, linearity "within rounding" and finiteness in IEEE arithmetic,
-   "constant input within 1 % once primed for depth >= 4". *)
+   glibc's sin/cos and the rounded PI, linearity "within rounding" and finiteness in IEEE arithmetic.
+   "Constant input within 1 % once primed for depth >= 4" is PROVED on exact reals (true sin, cos, PI) for
+   depths 4 .. 16 (c18_constant_1pct_small_depths: closed form of the model's interpolate on a constant
+   buffer, then Interval on the 2*depth Hann-windowed sinc weights, one lemma per depth); for depth > 16
+   and for the rounded evaluation with libm it stays numeric. *)
 Require Import Floats.SpecFloat.
 Require Import Reals List Arith ZArith.
 From Flocq Require Import Core BinarySingleNaN.
 From Dasp Require Import Base.Res Base.ListX Base.Float Ring.Bounded Ring.Fixed Ring.FixedSpec
-  Dsp.Sinc Dsp.SincProofs Dsp.SincR Dsp.SincRProofs Dsp.SincRun Dsp.SincExamples.
+  Dsp.Sinc Dsp.SincProofs Dsp.SincR Dsp.SincRProofs Dsp.SincRun Dsp.SincExamples
+  Dsp.SincConst Dsp.SincKernelBound Dsp.SincConstExamples.
 Import ListNotations.
 Open Scope nat_scope.
 
@@ -106,6 +110,26 @@ Theorem c18_linear : forall (sin_o cos_o : R -> R) (ch : nat) (a b : R) (d : nat
 Proof. exact interpolate_linear. Qed.
 Print Assumptions c18_linear.
 
+(* a constant input (reals, true sin/cos/PI, ANY depth >= 1, any position x): once primed (idx = depth), with
+   every buffered frame equal to (c, ..., c), the model's interpolate returns c * ksum on every channel, where
+   ksum d x is the sum, in the order of the fold, of the 2*depth weights of Dsp/Sinc.v's [weight] at the tap
+   arguments PI*(x + n) and PI*((1 - x) + n), n = 0 .. depth-1 *)
+Theorem c18_constant_weight_sum : forall (ch d : nat) (s : sinc NumR FmtR) (c x : R),
+  WF NumR FmtR ch d s -> idx s = d -> (forall fr, In fr (fdata (frames s)) -> fr = repeat c ch) ->
+  interpolate NumR sin cos FmtR ch s x = Ok (repeat (c * ksum d x)%R ch).
+Proof. exact interpolate_const. Qed.
+Print Assumptions c18_constant_weight_sum.
+
+(* ... and for depth 4 .. 16 that sum is within 1/100 of 1 at every fractional position: a constant input is
+   reproduced within 1 % (of |c|, on every channel) once the buffer is primed.  x = 0 is exact (c18_grid). *)
+Theorem c18_constant_1pct_small_depths : forall (ch d : nat) (s : sinc NumR FmtR) (c x : R),
+  4 <= d <= 16 -> WF NumR FmtR ch d s -> idx s = d ->
+  (forall fr, In fr (fdata (frames s)) -> fr = repeat c ch) -> (0 <= x < 1)%R ->
+  exists fr, interpolate NumR sin cos FmtR ch s x = Ok fr /\ length fr = ch /\
+             Forall (fun y => Rabs (y - c) <= 1 / 100 * Rabs c)%R fr.
+Proof. exact constant_1pct_small_depths. Qed.
+Print Assumptions c18_constant_1pct_small_depths.
+
 (* known finding K5: on i16 frames the accumulation can overflow (witness: depth 2, frames
    -32768 -32768 32767 32767, x = 0.5) ... *)
 Theorem c18_int_overshoot_refuted : exists sin_o cos_o s x,
@@ -119,3 +143,41 @@ Theorem c18_int_outside_class : forall sin_o cos_o ch d (s : sinc NumF64 FmtI16)
   exists fr, interpolate NumF64 sin_o cos_o FmtI16 ch s x = Ok fr /\ length fr = ch.
 Proof. exact i16_outside_class. Qed.
 Print Assumptions c18_int_outside_class.
+
+(* ---- the Converter's setters and accessors between outputs (Dsp/SincConv.v, Dsp/SincConvProofs.v) ---- *)
+From Dasp Require Import Dsp.SincConv Dsp.SincConvProofs.
+
+(* set_playback_hz_scale / set_hz_to_hz / set_sample_hz_scale change the ratio and nothing else: source, pull
+   counter, interpolator and the accumulator are untouched whatever the accumulator holds (0, fractional,
+   exactly 1 pending, above 1) *)
+Theorem c18_setters_only_ratio : forall (N : num) (M : fmt N) (c : conv N M) (x a b : T N),
+  let c1 := conv_set_playback_hz_scale N M c x in
+  let c2 := conv_set_hz_to_hz N M c a b in
+  let c3 := conv_set_sample_hz_scale N M c x in
+  (src c1 = src c /\ pulls c1 = pulls c /\ itp c1 = itp c /\ ival c1 = ival c /\ ratio c1 = x) /\
+  (src c2 = src c /\ pulls c2 = pulls c /\ itp c2 = itp c /\ ival c2 = ival c /\ ratio c2 = n_div N a b) /\
+  (src c3 = src c /\ pulls c3 = pulls c /\ itp c3 = itp c /\ ival c3 = ival c /\ ratio c3 = n_div N (n_one N) x).
+Proof. exact setters_only_ratio. Qed.
+Print Assumptions c18_setters_only_ratio.
+
+(* every arithmetic (reals, binary64), every state, every accumulator value: setter calls that announce the
+   ratio already in force, and accessor calls, between the outputs are invisible *)
+Theorem c18_reannounce_invisible : forall (N : num) (M : fmt N) (ch : nat) (sin_o cos_o : T N -> T N) (fuel : nat)
+  (ops : list (cop N)) (c : conv N M),
+  Forall (announces N (ratio c)) ops ->
+  conv_script N M ch sin_o cos_o fuel c ops = conv_run N sin_o cos_o M ch fuel c (count_next N ops).
+Proof. exact conv_script_reannounce. Qed.
+Print Assumptions c18_reannounce_invisible.
+
+(* the ratio-1 clause through any such script (reals, true sin/cos/PI): the k-th `next` still yields source
+   frame k - depth, one source frame pulled per output after the first *)
+Theorem c18_delay_reannounce : forall (ch d : nat), 1 <= d -> forall (source : list (list R)),
+  (forall fr, In fr source -> length fr = ch) -> forall (fuel : nat) (ops : list (cop NumR)), 1 <= fuel ->
+  Forall (announces NumR 1%R) ops ->
+  exists s0 c', sinc_init NumR FmtR ch d = Ok s0 /\
+    conv_script NumR FmtR ch sin cos fuel (conv_new NumR FmtR source s0 1%R) ops
+    = Ok (Some (map (fun j => if j <? d then repeat 0%R ch else nth (j - d) source (repeat 0%R ch))
+                    (seq 0 (count_next NumR ops)), c')) /\
+    pulls c' = count_next NumR ops - 1.
+Proof. exact converter_delay_script. Qed.
+Print Assumptions c18_delay_reannounce.
